@@ -123,6 +123,11 @@ Definition sbq_text (b : sbq) : list N :=
   | SBE neg gn i => (if neg then 33 :: blanks gn else []) ++ 64 :: render_steps i
   | SBC i a o b lit => 64 :: render_steps i ++ blanks a ++ op_text o ++ blanks b ++ lit
   end.
+(* a query with parenthesised sub-queries, in the grammar's shape: `&&` and `||` associate to the left *)
+Inductive qt := TB (b : bq) | TP (q : qt) | TA (l r : qt) | TO (l r : qt).
+Fixpoint qt_text (t : qt) : list N :=
+  match t with TB b => bq_text b | TP q => 40 :: qt_text q ++ [41] | TA l r => qt_text l ++ [38; 38] ++ qt_text r | TO l r => qt_text l ++ [124; 124] ++ qt_text r end.
+Definition ft_text (t : qt) : list N := [91; 63; 40] ++ qt_text t ++ [41; 93].
 Definition selem := (sbq * nat)%type.
 Definition sconj := (selem * list (nat * selem))%type.
 Definition sdnf := (sconj * list (nat * sconj))%type.
@@ -131,7 +136,8 @@ Inductive fstep := FS (x : rstep) | FE (isteps : list rstep) | FC (isteps : list
                  | FR (x : fstep)           (* `..` before a filter: the filter applied to every container below, in pre-order *)
                  | FCS (isteps : list rstep) (g0 a : nat) (o : cmpop) (b g1 : nat) (lit : list N)   (* a comparison with blanks: g0 after `?(`, a / b around the operator, g1 before `)` *)
                  | FES (neg : bool) (g0 gn : nat) (isteps : list rstep) (g1 : nat)   (* an existence test (negated: `!`) with blanks: after `?(`, after `!`, before `)` *)
-                 | FQS (g0 : nat) (d : sdnf).   (* a query in disjunctive form with blanks after `?(`, after every basic query, after every `&&` and `||` *)
+                 | FQS (g0 : nat) (d : sdnf)   (* a query in disjunctive form with blanks after `?(`, after every basic query, after every `&&` and `||` *)
+                 | FT (t : qt).   (* a filter over a query with parenthesised sub-queries *)
 Definition scmp_inner (i : list rstep) (a : nat) (o : cmpop) (b : nat) (lit : list N) : list N :=
   64 :: render_steps i ++ blanks a ++ op_text o ++ blanks b ++ lit.
 Definition scmp_text (i : list rstep) (g0 a : nat) (o : cmpop) (b g1 : nat) (lit : list N) : list N :=
@@ -149,6 +155,6 @@ Definition sfq_text (g0 : nat) (d : ((sbq * nat) * list (nat * (sbq * nat))) * l
   [91; 63; 40] ++ blanks g0 ++ sdnf_text d ++ [41; 93].
 Fixpoint render_fstep (x : fstep) : list N :=
   match x with FS y => render_rstep y | FE i => filt_text i | FC i o lit => cmp_text i o lit | FN i => neg_text i | FQ d => fq_text d
-             | FR y => 46 :: 46 :: render_fstep y | FCS i g0 a o b g1 lit => scmp_text i g0 a o b g1 lit | FES neg g0 gn i g1 => fes_text neg g0 gn i g1 | FQS g0 d => sfq_text g0 d end.
+             | FR y => 46 :: 46 :: render_fstep y | FCS i g0 a o b g1 lit => scmp_text i g0 a o b g1 lit | FES neg g0 gn i g1 => fes_text neg g0 gn i g1 | FQS g0 d => sfq_text g0 d | FT t => ft_text t end.
 Definition render_fsteps (l : list fstep) : list N := flat_map render_fstep l.
 Definition fchain_path (l : list fstep) : list N := 36 :: render_fsteps l.
